@@ -1,60 +1,64 @@
-(* C13 - ThreadedHistory as a labelled transition system.
+(* C13 - ThreadedHistory as a labelled transition system (code as of /repo HEAD,
+   i.e. with commit 0c2cbbe "append_string during loading").
 
    Shared state: the inner history's storage [t_store] (oldest first; for
    FileHistory: the file), `_loaded_strings` [t_ls] (newest first), `_loaded`,
-   the loader thread's program counter [t_ph], one record per `load()` call
-   (consumer) and the strings whose `append_string` has done its
-   `_loaded_strings.insert(0, s)` but not yet its `store_string(s)` [t_fly].
+   `_num_prepended` [t_np], the loader thread's program counter [t_ph], one
+   record per `load()` call (consumer) and the strings whose `append_string`
+   has done its `_loaded_strings.insert(0, s)` but not yet its
+   `store_string(s)` [t_fly].
 
-   Atomic steps = the lock regions and the single unlocked statements of
-   ThreadedHistory (history.py):
+   Atomic steps = the lock regions and the single unlocked statements:
 
+     CStart  a `load()` call up to its first await.  When it is the first one
+             (P0): `with lock: _loaded_strings = []`, thread started -> P2.
+             Registers an event (initially set), items_yielded = 0,
+             prepended_at_start = _num_prepended.
      LStep   the loader thread's next statement:
-               P1 -> `self._loaded_strings = []`                          -> P2
                P2 -> `self.history.load_history_strings()` (snapshot of the
                      storage, newest first)                                -> P3 items
                P3 (x :: r) -> `with lock: _loaded_strings.append(x)`;
                      every registered event set                            -> P3 r
                P3 [] -> `with lock: _loaded = True`; every event set       -> P4
-     CStart  a `load()` call up to its first await: starts the thread when it
-             is the first (P0 -> P1), registers an event (initially set),
-             items_yielded = 0
      CRead i consumer i's `in_executor`: under the lock
-             new = _loaded_strings[items_yielded:], done = _loaded, event
-             cleared; then items_yielded += len(new), the new items are
+             skip = _num_prepended - prepended_at_start,
+             new = _loaded_strings[skip + items_yielded:], done = _loaded,
+             event cleared; then items_yielded += len(new), the new items are
              yielded, and the consumer finishes (event unregistered) if done.
              (The model allows a read at any time, also when the event is not
              set: a superset of the real schedules.)
-     AIns s  append_string, first half: `with lock: _loaded_strings.insert(0, s)`
+     AIns s  append_string, first half:
+             `with lock: _loaded_strings.insert(0, s); _num_prepended += 1`
      ASto s  append_string, second half: `self.store_string(s)`
      Append s = AIns s; ASto s with nothing in between.
 
-   [c_snap] is a ghost field: the storage at the moment the consumer finished. *)
+   Ghost fields (not in the code): [t_base] the storage as the loader read it;
+   [c_start] storage ++ in-flight strings at the moment the consumer started. *)
 From Coq Require Import ZArith List Bool.
 From PTK Require Import Lib.Sx Lib.Py.
 Import ListNotations.
 Open Scope Z_scope.
 
-Inductive phase := P0 | P1 | P2 | P3 (pending : list str) | P4.
+Inductive phase := P0 | P2 | P3 (pending : list str) | P4.
 
-Record consumer := mkc { c_iy : nat; c_out : list str; c_fin : bool; c_ev : bool; c_snap : list str }.
+Record consumer := mkc {
+  c_iy : nat; c_p0 : nat; c_out : list str; c_fin : bool; c_ev : bool; c_start : list str }.
 
 Record tstate := mkt {
-  t_store : list str; t_ls : list str; t_loaded : bool; t_ph : phase;
-  t_cons : list consumer; t_fly : list str }.
+  t_store : list str; t_ls : list str; t_loaded : bool; t_np : nat; t_ph : phase;
+  t_cons : list consumer; t_fly : list str; t_base : list str }.
 
 Inductive label :=
-| LStep | CStart | CRead (i : nat) | AIns (s : str) | ASto (s : str) | Append (s : str)
-| CStartL.   (* CStart; LStep with nothing in between (how the harness starts the first load()) *)
+| LStep | CStart | CRead (i : nat) | AIns (s : str) | ASto (s : str) | Append (s : str).
 
 Definition set_ev (c : consumer) : consumer :=
-  if c_fin c then c else mkc (c_iy c) (c_out c) false true (c_snap c).
+  if c_fin c then c else mkc (c_iy c) (c_p0 c) (c_out c) false true (c_start c).
 
 Definition read (st : tstate) (c : consumer) : consumer :=
   if c_fin c then c else
-  let new := skipn (c_iy c) (t_ls st) in
-  mkc (c_iy c + length new) (c_out c ++ new) (t_loaded st) false
-      (if t_loaded st then t_store st else []).
+  let skip := (t_np st - c_p0 c)%nat in
+  let new := skipn (skip + c_iy c) (t_ls st) in
+  mkc (c_iy c + length new) (c_p0 c) (c_out c ++ new) (t_loaded st) false (c_start c).
 
 Fixpoint upd_nth {T} (l : list T) (i : nat) (f : T -> T) : list T :=
   match l, i with
@@ -70,56 +74,60 @@ Fixpoint remove_first (s : str) (l : list str) : list str :=
   end.
 
 Definition ains (st : tstate) (s : str) : tstate :=
-  mkt (t_store st) (s :: t_ls st) (t_loaded st) (t_ph st) (t_cons st) (t_fly st ++ [s]).
+  mkt (t_store st) (s :: t_ls st) (t_loaded st) (S (t_np st)) (t_ph st) (t_cons st)
+      (t_fly st ++ [s]) (t_base st).
 Definition asto (st : tstate) (s : str) : tstate :=
-  mkt (t_store st ++ [s]) (t_ls st) (t_loaded st) (t_ph st) (t_cons st) (remove_first s (t_fly st)).
+  mkt (t_store st ++ [s]) (t_ls st) (t_loaded st) (t_np st) (t_ph st) (t_cons st)
+      (remove_first s (t_fly st)) (t_base st).
 
-Definition tstep1 (st : tstate) (l : label) : tstate :=
+Definition new_cons (st : tstate) : consumer :=
+  mkc 0 (t_np st) [] false true (t_store st ++ t_fly st).
+
+Definition tstep (st : tstate) (l : label) : tstate :=
   match l with
   | LStep =>
       match t_ph st with
       | P0 => st
-      | P1 => mkt (t_store st) [] (t_loaded st) P2 (t_cons st) (t_fly st)
-      | P2 => mkt (t_store st) (t_ls st) (t_loaded st) (P3 (rev (t_store st))) (t_cons st) (t_fly st)
+      | P2 => mkt (t_store st) (t_ls st) (t_loaded st) (t_np st) (P3 (rev (t_store st)))
+                  (t_cons st) (t_fly st) (t_store st)
       | P3 (x :: r) =>
-          mkt (t_store st) (t_ls st ++ [x]) (t_loaded st) (P3 r) (map set_ev (t_cons st)) (t_fly st)
-      | P3 [] => mkt (t_store st) (t_ls st) true P4 (map set_ev (t_cons st)) (t_fly st)
+          mkt (t_store st) (t_ls st ++ [x]) (t_loaded st) (t_np st) (P3 r)
+              (map set_ev (t_cons st)) (t_fly st) (t_base st)
+      | P3 [] => mkt (t_store st) (t_ls st) true (t_np st) P4 (map set_ev (t_cons st))
+                     (t_fly st) (t_base st)
       | P4 => st
       end
   | CStart =>
-      mkt (t_store st) (t_ls st) (t_loaded st)
-          (match t_ph st with P0 => P1 | p => p end)
-          (t_cons st ++ [mkc 0 [] false true []]) (t_fly st)
+      match t_ph st with
+      | P0 => mkt (t_store st) [] (t_loaded st) (t_np st) P2 (t_cons st ++ [new_cons st])
+                  (t_fly st) (t_base st)
+      | p => mkt (t_store st) (t_ls st) (t_loaded st) (t_np st) p (t_cons st ++ [new_cons st])
+                 (t_fly st) (t_base st)
+      end
   | CRead i =>
-      mkt (t_store st) (t_ls st) (t_loaded st) (t_ph st) (upd_nth (t_cons st) i (read st)) (t_fly st)
+      mkt (t_store st) (t_ls st) (t_loaded st) (t_np st) (t_ph st)
+          (upd_nth (t_cons st) i (read st)) (t_fly st) (t_base st)
   | AIns s => ains st s
   | ASto s => asto st s
   | Append s => asto (ains st s) s
-  | CStartL => st
-  end.
-Definition tstep (st : tstate) (l : label) : tstate :=
-  match l with
-  | CStartL => tstep1 (tstep1 st CStart) LStep
-  | _ => tstep1 st l
   end.
 
 Definition trun (st : tstate) (sched : list label) : tstate := fold_left tstep sched st.
 
-Definition tinit (S0 : list str) : tstate := mkt S0 [] false P0 [] [].
+Definition tinit (S0 : list str) : tstate := mkt S0 [] false 0 P0 [] [] [].
 
-(* "no append concurrent with loading": appends only as atomic [Append], and
-   only while nothing is in progress: before the first load(), or after the
-   loader is done with every consumer finished *)
-Definition quiescent (st : tstate) : bool :=
-  match t_ph st with
-  | P0 => true
-  | P4 => forallb c_fin (t_cons st)
-  | _ => false
-  end.
+(* The schedules the repair covers: one append_string at a time (it runs on
+   the event-loop thread), none of its halves between the first load()'s cache
+   reset and the loader thread's reading of the storage (P2), and the first
+   load() does not start in the middle of an append_string. *)
+Definition is_P0 (p : phase) : bool := match p with P0 => true | _ => false end.
+Definition is_P2 (p : phase) : bool := match p with P2 => true | _ => false end.
+Definition fly_nil (st : tstate) : bool := match t_fly st with [] => true | _ => false end.
 Definition ok_label (st : tstate) (l : label) : bool :=
   match l with
-  | AIns _ | ASto _ => false
-  | Append _ => quiescent st
+  | AIns _ | Append _ => fly_nil st && negb (is_P2 (t_ph st))
+  | ASto s => match t_fly st with [x] => str_eqb x s | _ => false end && negb (is_P2 (t_ph st))
+  | CStart => negb (is_P0 (t_ph st)) || fly_nil st
   | _ => true
   end.
 Fixpoint ok_sched (st : tstate) (sched : list label) : bool :=
@@ -134,7 +142,8 @@ Definition obs_cons (c : consumer) : sx := L [sx_strl (c_out c); sx_bool (c_fin 
 Definition obs (st : tstate) : sx :=
   L [sx_strl (t_store st); sx_strl (t_ls st); sx_bool (t_loaded st);
      L (map obs_cons (t_cons st));
-     L (map (fun c => sx_bool (c_ev c)) (filter (fun c => negb (c_fin c)) (t_cons st)))].
+     L (map (fun c => sx_bool (c_ev c)) (filter (fun c => negb (c_fin c)) (t_cons st)));
+     A (Z.of_nat (t_np st))].
 
 Fixpoint trun_obs (st : tstate) (sched : list label) : list sx :=
   match sched with
@@ -144,32 +153,26 @@ Fixpoint trun_obs (st : tstate) (sched : list label) : list sx :=
 
 (* ---- schedules the harness can force on the real class ----------------- *)
 (* (gates sit in the inner history's generator and in its store_string; the
-   consumer is advanced by `__anext__`, which must not be called when it would
-   block) *)
-Definition is_P1 (p : phase) : bool := match p with P1 => true | _ => false end.
+   consumer is advanced one loop iteration at a time and must not be asked to
+   read when that would block; load() and append_string both run on the
+   event-loop thread, so no load() starts inside an append_string) *)
 Definition replayable (maxc : nat) (st : tstate) (l : label) : bool :=
   match l with
   | LStep => match t_ph st with P0 | P4 => false | _ => true end
-  | CStart => match t_ph st, t_fly st with
-              | P0, _ | P1, _ => false
-              | _, [] => (length (t_cons st) <? maxc)%nat
-              | _, _ => false
-              end
+  | CStart => fly_nil st && (length (t_cons st) <? maxc)%nat
   | CRead i =>
-      negb (is_P1 (t_ph st)) &&
       match nth_error (t_cons st) i with
       | Some c => negb (c_fin c) && c_ev c &&
-                  ((c_iy c <? length (t_ls st))%nat || t_loaded st)
+                  (((t_np st - c_p0 c) + c_iy c <? length (t_ls st))%nat || t_loaded st)
       | None => false
       end
-  | AIns _ => negb (is_P1 (t_ph st)) && match t_fly st with [] => true | _ => false end
+  | AIns _ => fly_nil st
   | ASto s => match t_fly st with [x] => str_eqb x s | _ => false end
   | Append _ => false
-  | CStartL => match t_ph st, t_fly st with P0, [] => (length (t_cons st) <? maxc)%nat | _, _ => false end
   end.
 
 Definition candidates (st : tstate) (pool : list str) : list label :=
-  [LStep; CStartL; CStart; CRead 0; CRead 1; CRead 2]
+  [LStep; CStart; CRead 0; CRead 1; CRead 2]
   ++ match pool with [] => [] | s :: _ => [AIns s] end
   ++ match t_fly st with [] => [] | s :: _ => [ASto s] end.
 
@@ -209,7 +212,6 @@ Definition dec_label (s : sx) : option label :=
   | L [A 4; e] => match as_str e with Some e' => Some (AIns e') | None => None end
   | L [A 5; e] => match as_str e with Some e' => Some (ASto e') | None => None end
   | L [A 6; e] => match as_str e with Some e' => Some (Append e') | None => None end
-  | L [A 7] => Some CStartL
   | _ => None
   end.
 Definition enc_label (l : label) : sx :=
@@ -220,7 +222,6 @@ Definition enc_label (l : label) : sx :=
   | AIns s => L [A 4; sx_str s]
   | ASto s => L [A 5; sx_str s]
   | Append s => L [A 6; sx_str s]
-  | CStartL => L [A 7]
   end.
 Definition dec_strs (s : sx) : option (list str) :=
   match s with L l => map_opt as_str l | _ => None end.
